@@ -30,9 +30,26 @@ class ParserModel:
         self.cc_next = method(facts, T_ITER, CC, "next")
         self.file = self.cc_next.file
         raw = self.cc_next
+        # the parser's own code: the functions of its file, and private helpers that were moved elsewhere (reading and parsing the head may
+        # live next to the Request type) -- everything local that no other model owns: not new_request, not the methods of the Request /
+        # Response / turn-taking / body-reader types, nothing of the response module
+        owned_adts = {REQ, RESP, SW, SR, SWB, SRB, ER, FR}
+        resp_file = facts.adt(RESP)["file"]
+        seq_file = facts.adt(SW)["file"]
+        req_file = facts.adt(REQ)["file"]
         def same_file(d):
             g = facts.fns.get(d)
-            return g is not None and g.rec.get("local") and g.file == self.file
+            if g is None or not g.rec.get("local"):
+                return False
+            if g.file == self.file:
+                return True
+            if g.file != req_file:
+                return False            # (helpers moved next to the Request type are followed; other modules have their own rules)
+            if d == "request::new_request" or g.rec.get("impl_self_adt") in owned_adts:
+                return False
+            if g.rec.get("impl_trait") in (T_READ, T_WRITE, T_DROP):
+                return False
+            return True
         self.same_file = same_file
         # first find "read": inline everything of this file, look for the call whose destination is Result<Request, E>
         full = inline.inlined(facts, self.cc_next.id, stop=lambda d: facts.fns[d].rec.get("local") and not same_file(d), extern_ok=Q.std_small)
@@ -96,7 +113,7 @@ class ParserModel:
                 continue
             cal = rd.blocks[b]["term"].get("inl_enter")
             g = self.facts.fns.get(cal)
-            if g is not None and g.rec.get("local") and g.file == self.file and "{closure" not in cal and re.match(LINE_TY, rd.local_ty(ic["dest"]["l"])):
+            if g is not None and self.same_file(cal) and "{closure" not in cal and re.match(LINE_TY, rd.local_ty(ic["dest"]["l"])):
                 out.append(b)
         return out
 
@@ -363,8 +380,12 @@ def trace_and_judge(ctx, r1, r2, only=None):
         ty = rd.local_ty(t["dest"]["l"])
         mm = re.match(r"^std::result::Result<request::Request, ([\w:]+)>$", ty)
         ctx.require(mm and mm.group(1) in facts.adts, "C10.1: error type of new_request")
+        import framing_rules as FRM_
+        produced = {r["err"][2] for r in FRM_.fmodel(facts).rows if r.get("kind") == "err" and r.get("err") and r["err"][0] == "agg"}
         for v in facts.adt(mm.group(1))["variants"]:
             tys = [x["ty"] for x in v["fields"]]
+            if produced and v["name"] not in produced and tys != ["std::io::Error"]:
+                continue        # a variant of a shared error type that new_request never returns (it belongs to another producer)
             kinds = ["TimedOut", "ConnectionAborted"] if tys == ["std::io::Error"] else [None]
             for kind in kinds:
                 st = symex.Sym(rd)
